@@ -43,6 +43,8 @@ import (
 	"sync"
 	"time"
 
+	"github.com/rhysd/actionlint"
+
 	"verifharness/hx"
 )
 
@@ -58,9 +60,10 @@ var (
 	fHi      = flag.Int("hi", 0, "internal")
 	fRes     = flag.String("res", "", "internal: result file")
 	fScratch = flag.String("scratch", "", "internal: scratch project directory")
-	fLimit   = flag.Int("limit", 0, "per-case wall-clock limit in seconds (default 20 quick, 40 thorough)")
+	fLimit   = flag.Int("limit", 0, "per-case wall-clock limit in seconds (default 30 quick, 60 thorough)")
 	fWorkers = flag.Int("workers", 8, "parallel child processes")
 	fList    = flag.Bool("list", false, "print the streams and exit")
+	fShow    = flag.Int("show", -1, "print case number N of -stream with the parser's diagnostics and exit")
 )
 
 func repoDir() string {
@@ -94,9 +97,9 @@ func limit() time.Duration {
 		return time.Duration(*fLimit) * time.Second
 	}
 	if *fTier == "thorough" {
-		return 40 * time.Second
+		return 60 * time.Second
 	}
-	return 20 * time.Second
+	return 30 * time.Second
 }
 
 // ------------------------------------------------------------------ child
@@ -380,6 +383,7 @@ func parentMain() {
 	var ksrc []string
 	distinct := map[string]bool{}
 	slow := 0
+	var slowDesc []string
 	var slowest int64
 	streamNames := []string{}
 	for _, s := range pl.streams {
@@ -414,6 +418,9 @@ func parentMain() {
 			}
 			if r.DurMs > 2000 {
 				slow++
+				if len(slowDesc) < 8 {
+					slowDesc = append(slowDesc, fmt.Sprintf("%d ms: %s#%d %s", r.DurMs, name, r.Idx, trunc(pl.stream(name).Get(r.Idx).Desc, 160)))
+				}
 			}
 			switch {
 			case r.Panic != "":
@@ -483,6 +490,7 @@ func parentMain() {
 	sum.Extra["narrowed_failures"] = p.narrowed
 	sum.Extra["slow_cases_over_2s"] = slow
 	sum.Extra["slowest_case_ms"] = slowest
+	sum.Extra["slow_cases"] = slowDesc
 	sum.Extra["per_case_limit_s"] = int(limit() / time.Second)
 	sum.Extra["bases"] = map[string]int{"workflow": len(pl.bases[0]), "action": len(pl.bases[1]), "callee": len(pl.bases[2]), "config": len(pl.bases[3])}
 	sum.Extra["substitutions_per_position"] = len(pl.subs)
@@ -617,6 +625,21 @@ func main() {
 		os.Exit(replayMain(*fReplay))
 	case *fChild:
 		childMain()
+	case *fShow >= 0:
+		pl := mkPlan()
+		st := pl.stream(*fStream)
+		if st == nil || *fShow >= st.N {
+			fmt.Println("no such case")
+			os.Exit(2)
+		}
+		c := st.Get(*fShow)
+		fmt.Printf("%s#%d channel=%s\n%s\nskip=%q\n---\n%s\n---\n", c.Stream, c.Idx, channelNames[c.Channel], c.Desc, c.Skip, trunc(string(c.Data), 6000))
+		if c.Channel == chWorkflow {
+			_, errs := actionlint.Parse(c.Data)
+			for _, e := range errs {
+				fmt.Printf("%d:%d [class %d] %s\n", e.Line, e.Column, classify(e.Message), trunc(e.Message, 200))
+			}
+		}
 	case *fList:
 		pl := mkPlan()
 		for _, s := range pl.streams {
